@@ -411,17 +411,6 @@ theorem get_del (d : DS) (k k' : String) : DS.get (DS.del d k) k' = if k' = k th
         simp [List.filter, h1, List.lookup, h2, ih]
   · simp [DS.get, DS.del, h, lookup_filter_ne d k k' h]
 
-/-- an assignment or deletion on a coded-concept dataset -/
-inductive Op
-  | set (k v : String)
-  | del (k : String)
-
-def applyOp (d : DS) : Op → DS
-  | .set k v => DS.set d k v
-  | .del k => DS.del d k
-
-def applyOps (d : DS) (ops : List Op) : DS := ops.foldl applyOp d
-
 /-- the only mutations that can make `==` fail: deleting the meaning or the scheme designator -/
 def Op.keepsReadable : Op → Prop
   | .set _ _ => True
